@@ -1174,7 +1174,18 @@ func indexLoopAsRange(s *ast.ForStmt) (*ast.RangeStmt, bool) {
 		}
 		return nil
 	}).(*ast.BlockStmt)
-	return &ast.RangeStmt{Key: iv, Value: elem, Tok: token.DEFINE, X: xs, Body: body}, true
+	key := iv
+	used := false
+	ast.Inspect(body, func(n ast.Node) bool {
+		if id, ok := n.(*ast.Ident); ok && id.Name == iv.Name {
+			used = true
+		}
+		return !used
+	})
+	if !used { // the index only served to read X[i]
+		key = &ast.Ident{Name: "_"}
+	}
+	return &ast.RangeStmt{Key: key, Value: elem, Tok: token.DEFINE, X: xs, Body: body}, true
 }
 
 // replaceExpr returns a copy of the node in which every expression for which f returns non-nil is replaced by that result
